@@ -39,6 +39,9 @@ def base_recipe(meta):
         acts.append(("gwf", ["run", first]))
         if meta.get("started"):
             acts.append(("env", "start", first))
+    if meta["init"] == "failedhist":
+        # the first target already has a tracked job from an earlier invocation, and that job failed: this run submits it again
+        acts += [("gwf", ["run", first]), ("env", "start", first), ("env", "finish_fail", first)]
     return dict(wf=meta["wf"], backend=meta["backend"], actions=acts, hashing=True, accounting=meta.get("accounting", True))
 
 
@@ -350,7 +353,9 @@ def scenarios(quick):
                 out.append(dict(wf=wf, backend=be, init=init))
                 if be == "slurm" and init == "inflight":
                     out.append(dict(wf=wf, backend=be, init=init, accounting=False))
+    out += [dict(wf="chain", backend=be, init="failedhist") for be in (("slurm", "lsf") if quick else ("slurm", "sge", "lsf"))]
     if not quick:
+        out += [dict(wf=wf, backend=be, init="failedhist") for wf in ("fork", "diamond") for be in ("slurm", "sge", "lsf")]
         out += [dict(wf="diamond", backend=be, init=init, started=st) for be in ("slurm", "sge", "lsf") for init, st in (("fresh", False), ("inflight", False), ("inflight", True))]
         out += [dict(wf=wf, backend=be, init="inflight", started=True) for wf in ("chain", "fork") for be in ("slurm", "sge", "lsf")]
         out += [dict(wf="diamond", backend="slurm", init="inflight", accounting=False)]
